@@ -443,6 +443,41 @@ def partial_read_rule(chk, prog, cfg, bodies):
         chk.floor("bare read sites in the parsers [A]", n, 1)
 
 
+def matcher_affix_assumption(chk, prog, cfg, rid="ASSUME.matcher_affixes"):
+    """The panic inventory discharges `value[1..value.len() - 1]` in the configuration parser by the guard `wildcard_match("\"*\"", value)`:
+    a match of `P*S` is taken to mean that the text has room for P and S side by side (len >= |P| + |S|).  The character-by-character
+    matcher has that property by construction (every literal character of the pattern consumes its own character of the text).  A matcher
+    that tests the two ends independently — `tame.starts_with(prefix) && tame.ends_with(suffix)` — does not: `"` matches `"*"`, and the slice
+    panics.  If the matcher looks at both ends of the text with starts_with / ends_with, a comparison of the text's length with a sum must
+    accompany it."""
+    b = prog.bodies.get("humphrey::krauss::wildcard_match")
+    chk.floor(f"krauss::wildcard_match [{cfg}]", 1 if b else 0, 1)
+    if not b:
+        return
+    fam = [b] + prog.all_closures_of(b.path)
+    def on_text(bb, t):
+        d = core.describe(prog, bb, t["args"][0]) if t["args"] else None
+        return d is not None and core.desc_contains(d, lambda y: y[0] == "param" and y[1] == 2) or (bb is not b)
+    st = [(bb, blk) for bb in fam for blk, t in bb.calls_to(r"str>?::starts_with$|<impl str>::starts_with$|::strip_prefix$") if on_text(bb, t)]
+    en = [(bb, blk) for bb in fam for blk, t in bb.calls_to(r"str>?::ends_with$|<impl str>::ends_with$|::strip_suffix$") if on_text(bb, t)]
+    guarded = False
+    for bb in fam:
+        for blk in bb.blocks:
+            for s_ in blk["stmts"]:
+                rv = s_.get("rv")
+                if rv and rv.get("k") == "bin" and rv.get("op") in ("Lt", "Le", "Gt", "Ge"):
+                    l_, r_ = core.describe(prog, bb, rv["l"]), core.describe(prog, bb, rv["r"])
+                    has_len = lambda d: core.desc_contains(d, lambda y: y[0] == "call" and str(y[1]).endswith("::len"))
+                    has_sum = lambda d: core.desc_contains(d, lambda y: y[0] == "bin" and str(y[1]).startswith("Add"))
+                    if (has_len(l_) and has_sum(r_)) or (has_len(r_) and has_sum(l_)):
+                        guarded = True
+    both = bool(st) and bool(en)
+    chk.ob(rid, b.path, "a match of P*S leaves room for P and S side by side (both ends are not tested independently without a length test)", not both or guarded,
+           "the matcher accepts when the text starts with the part before `*` and ends with the part after it, without comparing the text's length with the sum of the two: "
+           "the two parts may overlap (`\"` matches `\"*\"`), and the configuration parser's `value[1..value.len() - 1]` behind that guard panics",
+           where=b.where(st[0][1]) if st and st[0][0] is b else "", cfg=cfg)
+
+
 def run(chk):
     chk.explanation = (
         "Static decision over the call graphs of the 16 parser entry points (14 in the default build, the 2 async request-parser entries in the tokio build): "
@@ -460,6 +495,7 @@ def run(chk):
     alloc_rule(chk, a, "A", bodies)
     progress_rule(chk, a, "A", bodies)
     partial_read_rule(chk, a, "A", bodies)
+    matcher_affix_assumption(chk, a, "A")
     b = chk.use(core.load("B", fresh=(chk.tier == "thorough")))
     bodies_b = panic_rule(chk, b, "B", ENTRIES_B)
     alloc_rule(chk, b, "B", bodies_b)
